@@ -60,7 +60,7 @@ func TestC33(t *testing.T) {
 	n := r.N(1600, 32000)
 	r.Each(t, n, 0, nil, func(t *testing.T, c *rt.Case) {
 		rng := c.Rand()
-		K := []time.Duration{2 * time.Second, 5 * time.Second, 60 * time.Second}[rng.Intn(3)]
+		K := []time.Duration{2 * time.Second, 5 * time.Second, 60 * time.Second, 2 * time.Second, 5 * time.Second, 60 * time.Second, 500 * time.Millisecond}[rng.Intn(7)]
 		RD := []time.Duration{time.Second, 10 * time.Second}[rng.Intn(2)]
 		pol := c33policy{kind: "instant"}
 		switch rng.Intn(4) {
@@ -80,6 +80,10 @@ func TestC33(t *testing.T) {
 			st.op = []string{"sleep", "sleep", "sleep", "publish", "subscribe", "ping", "disconnect"}[rng.Intn(7)]
 			if st.op == "sleep" {
 				st.d = []time.Duration{time.Second, K, 3 * K, RD + time.Second}[rng.Intn(4)]
+				if st.d < time.Second {
+					// the sleep duration travels in whole seconds: a sub-second Sleep() is a plain DISCONNECT on the wire
+					st.d = time.Second
+				}
 				st.then = []string{"connect", "sleep-again-then-connect"}[rng.Intn(2)]
 			}
 			steps = append(steps, st)
@@ -331,5 +335,5 @@ func TestC33(t *testing.T) {
 			r.Sample(map[string]interface{}{"case": c.Desc, "keepalive_pings_at": fmt.Sprint(pings), "trace_head": world.Strings(evs, 30)})
 		}
 	})
-	r.Finish("real client library with KeepAlive 2/5/60 s (RetryDelay 1/10 s, RetryCount 2) against a scripted gateway in virtual time. The gateway answers keep-alive pings (PINGREQ without client ID) at once, late (RetryDelay/2, just before the retransmission, after it, 0.5 s) or only on retransmission; a plain DISCONNECT at once or RetryDelay/2 or 1.5 RetryDelay late, everything else at once. Programs: 1-4 API calls (Sleep 1 s / KeepAlive / 3 KeepAlive / RetryDelay+1 s followed by Connect or by a second Sleep and Connect; Publish QoS 1; Subscribe; Ping; Disconnect) placed at offsets {-1 ms, 0, +1 ms, RetryDelay/2, RetryDelay, RetryDelay+1 ms, KeepAlive/2, half and whole PINGRESP delay} around the 1st-3rd expected keep-alive tick after the last activation; then two more periods. Oracle from the wire: (a) whenever every keep-alive exchange is over before the next tick (PINGRESP at once, or later than that but within KeepAlive), while active (CONNACK .. the client's DISCONNECT) consecutive PINGREQs are at most KeepAlive apart, incl. the first and the last gap; (b) no PINGREQ without client ID strictly inside an asleep window (gateway's DISCONNECT reply .. next CONNECT) or a disconnected one, retransmissions included; (c) no API call fails or hangs, since every ping is answered within the retry budget. Same-instant ties are not judged.", nil)
+	r.Finish("real client library with KeepAlive 2/5/60 s or 500 ms (RetryDelay 1/10 s, RetryCount 2) against a scripted gateway in virtual time. The gateway answers keep-alive pings (PINGREQ without client ID) at once, late (RetryDelay/2, just before the retransmission, after it, 0.5 s) or only on retransmission; a plain DISCONNECT at once or RetryDelay/2 or 1.5 RetryDelay late, everything else at once. Programs: 1-4 API calls (Sleep 1 s / KeepAlive / 3 KeepAlive / RetryDelay+1 s followed by Connect or by a second Sleep and Connect; Publish QoS 1; Subscribe; Ping; Disconnect) placed at offsets {-1 ms, 0, +1 ms, RetryDelay/2, RetryDelay, RetryDelay+1 ms, KeepAlive/2, half and whole PINGRESP delay} around the 1st-3rd expected keep-alive tick after the last activation; then two more periods. Oracle from the wire: (a) whenever every keep-alive exchange is over before the next tick (PINGRESP at once, or later than that but within KeepAlive), while active (CONNACK .. the client's DISCONNECT) consecutive PINGREQs are at most KeepAlive apart, incl. the first and the last gap; (b) no PINGREQ without client ID strictly inside an asleep window (gateway's DISCONNECT reply .. next CONNECT) or a disconnected one, retransmissions included; (c) no API call fails or hangs, since every ping is answered within the retry budget. Same-instant ties are not judged.", nil)
 }
